@@ -176,7 +176,10 @@ M(cl, at, lx, code) == [class |-> cl, at |-> at, lexeme |-> lx, code |-> code, p
 UndefRefPos == {"where_left_rel", "where_right_rel", "where_arith", "derive_left_rel", "derive_right_rel", "derive_plain",
                 "derive_in_left", "derive_in_right", "derive_eq_left", "derive_insteq_left", "derive_interval", "derive_neg",
                 "derive_query", "derive_like_left", "derive_arith_left", "derive_aggr_init", "derive_builtin_arg",
-                "derive_index", "derive_group", "rule_left_rel", "func_local_left_rel"}
+                "derive_index", "derive_group", "rule_left_rel", "func_local_left_rel",
+                \* expressions inside type specifications: widths, precisions and bounds
+                "type_string_width", "type_binary_width", "type_real_precision", "type_aggr_bound", "attr_string_width",
+                "attr_aggr_bound", "local_string_width"}
 Mutants(c) ==
   {M("syntax_semicolon", at, "", "") : at \in 1..2}
   \cup {M("syntax_keyword", at, "", "") : at \in 1..2}
